@@ -56,6 +56,8 @@ pub enum ExecStep {
     Nested(Vec<ExecStep>),
     LazyInsert(u8, Sel, u32),
     LazyRemove(u8, Sel),
+    /// a chain of n closures, each queued by the one before it while it runs (one maintain must run them all)
+    Chain(u8),
 }
 
 #[derive(Clone, Debug, Serialize, Deserialize, Hash, PartialEq, Eq)]
@@ -69,6 +71,8 @@ pub enum Op {
     DeleteNow(Sel),
     DeleteBatch(Vec<Sel>),
     DeleteAtomic(Sel),
+    /// the same entity deleted through both paths: Entities::delete, then delete_entity
+    DeleteTwice(Sel),
     DeleteAll,
     Maintain,
     Insert(u8, Sel, u32),
@@ -182,6 +186,7 @@ pub struct Facts {
     pub multi_storage_death_then_reuse: u32,
     pub lazy_actions_run: u32,
     pub lazy_nested: u32,
+    pub lazy_chain_over_64: u32,
     pub lazy_dead_target: u32,
     pub lazy_reused_target: u32,
     pub max_queue_in_one_maintain: u32,
@@ -245,7 +250,7 @@ where
         type SystemData = (Entities<'a>, ReadStorage<'a, C>);
         fn run(&mut self, _: Self::SystemData) {}
     }
-    match path % 7 {
+    match path % 9 {
         0 => world.register::<C>(),
         1 => world.register_with_storage::<_, C>(Default::default),
         2 => world.setup::<ReadStorage<C>>(),
@@ -264,7 +269,16 @@ where
                 .build();
             d.setup(world);
         }
-        _ => world.exec(|_: ReadStorage<C>| ()),
+        6 => world.exec(|_: ReadStorage<C>| ()),
+        7 => {
+            // the storage resource is put into the world directly and registered afterwards
+            world.insert(specs::storage::MaskedStorage::<C>::new(Default::default()));
+            world.register::<C>();
+        }
+        _ => {
+            world.register::<C>();
+            world.register::<C>();
+        }
     }
 }
 
@@ -280,13 +294,22 @@ fn setup_pool() -> Arc<specs::rayon::ThreadPool> {
 fn builder_with<'a, C: ZooComp>(b: EntityBuilder<'a>, payload: u32) -> (EntityBuilder<'a>, Ident) {
     let c = C::make(payload);
     let id = c.ident();
-    (b.with(c), id)
+    // with / maybe_with(Some) are the same insertion; maybe_with(None) adds nothing
+    match payload % 3 {
+        0 => (b.with(c), id),
+        1 => (b.maybe_with(Some(c)), id),
+        _ => (b.maybe_with(None::<C>).with(c), id),
+    }
 }
 
 fn lazy_builder_with<'a, C: ZooComp>(b: LazyBuilder<'a>, payload: u32) -> (LazyBuilder<'a>, Ident) {
     let c = C::make(payload);
     let id = c.ident();
-    (b.with(c), id)
+    match payload % 3 {
+        0 => (b.with(c), id),
+        1 => (b.maybe_with(Some(c)), id),
+        _ => (b.maybe_with(None::<C>).with(c), id),
+    }
 }
 
 fn res_builder_with<'a, C: ZooComp>(
@@ -520,6 +543,29 @@ fn st_lend_get<C: ZooComp>(
         r
     };
     (a, b, c)
+}
+
+/// Lending joins whose mask does not depend on the entity being alive: an optional member alone, the
+/// entries of the storage, the negated storage.  `(maybe, entry occupied?, anti)`.
+fn st_lend_get_unbounded<C: ZooComp>(world: &World, e: Entity) -> (Option<Option<Ident>>, Option<bool>, bool) {
+    let ents = world.entities();
+    let mut st = world.write_storage::<C>();
+    let d1 = {
+        let mut j = ((&st).maybe(),).lend_join();
+        let r = j.get(e, &ents).map(|(o,)| o.map(|c| c.ident()));
+        r
+    };
+    let d2 = {
+        let mut j = (st.entries(),).lend_join();
+        let r = j.get(e, &ents).map(|(en,)| matches!(en, specs::storage::StorageEntry::Occupied(_)));
+        r
+    };
+    let d3 = {
+        let mut j = (!&st,).lend_join();
+        let r = j.get(e, &ents).is_some();
+        r
+    };
+    (d1, d2, d3)
 }
 
 /// `get_other` / `get_other_mut` through the first item of the restricted
@@ -904,8 +950,10 @@ impl Interp {
                         .iter()
                         .filter_map(|(s, p)| self.slot(*s).map(|s| (s, *p)))
                         .collect();
+                    let unchecked = comps.len() >= 2 && comps[0].1 % 2 == 1;
                     let world = self.wm();
-                    let mut b = world.create_entity();
+                    // both entry points build the same kind of builder
+                    let mut b = if unchecked { world.create_entity_unchecked() } else { world.create_entity() };
                     let e = b.entity;
                     for (s, p) in slots {
                         let (nb, id) = with_kind!(kinds[s], builder_with(b, p));
@@ -1094,6 +1142,10 @@ impl Interp {
                     self.kill(hi);
                 }
                 self.note(|| format!("delete_batch {:?} -> {:?}", es, r.as_ref().map_err(|(_, k)| *k)));
+            }
+            Op::DeleteTwice(sel) => {
+                self.step(&Op::DeleteAtomic(*sel))?;
+                return self.step(&Op::DeleteNow(*sel));
             }
             Op::DeleteAtomic(sel) => {
                 let hi = match self.resolve(*sel) {
@@ -1315,9 +1367,12 @@ impl Interp {
                 };
                 let e = self.handles[hi].e;
                 let kind = self.kinds[slot];
+                let (d1, d2, d3) = with_kind!(kind, st_lend_get_unbounded(self.w(), e));
                 let (a, b, c) = with_kind!(kind, st_lend_get(self.w(), e, *p));
                 if self.alive(hi) {
                     let m = self.comps[slot].get(&e.id()).cloned();
+                    ensure!("C06", "lend-get-unbounded", d1 == Some(m) && d2 == Some(m.is_some()) && d3 == m.is_none(),
+                        "lookups of the live {:?} in {:?} through ((&s).maybe(),) / (s.entries(),) / (!&s,) gave {:?} / {:?} / {}, the component is {:?}", e, kind, d1, d2, d3, m);
                     ensure!("C06", "lend-get-shared", a == m, "(&s,).lend_join().get({:?}) in {:?} saw {:?}, expected {:?}", e, kind, a, m);
                     ensure!("C06", "lend-get-mut", b == m, "(&entities,&mut s).lend_join().get({:?}) in {:?} saw {:?}, expected {:?}", e, kind, b, m);
                     let mm = m.map(|mut x| {
@@ -1334,6 +1389,8 @@ impl Interp {
                     }
                 } else {
                     self.stale_access(slot, e);
+                    ensure!("C03", "stale-lend-get-unbounded", d1.is_none() && d2.is_none() && !d3,
+                        "lending-join lookup through the dead handle {:?} in {:?} via ((&s).maybe(),) / (s.entries(),) / (!&s,) returned {:?} / {:?} / {}", e, kind, d1, d2, d3);
                     ensure!("C03", "stale-lend-get", a.is_none() && b.is_none() && c.is_none(),
                         "lending-join lookup through the dead handle {:?} in {:?} returned {:?} / {:?} / {:?}", e, kind, a, b, c);
                     self.check_slot_index("C03", slot, e.id(), "lending-join lookup through a dead handle")?;
@@ -1559,6 +1616,31 @@ impl Interp {
                     (Some(a), Some(h)) => Some(RStep::LazyInsert(a, self.handles[h].e, *p)),
                     _ => None,
                 },
+                ExecStep::Chain(n) => {
+                    if depth == 0 {
+                        let ids: Vec<u32> = (0..*n)
+                            .map(|_| {
+                                let i = self.next_exec_id;
+                                self.next_exec_id += 1;
+                                i
+                            })
+                            .collect();
+                        let mut cur: Option<RExec> = None;
+                        for id in ids.into_iter().rev() {
+                            let steps = match cur.take() {
+                                Some(c) => vec![RStep::Nested(c)],
+                                None => vec![],
+                            };
+                            cur = Some(RExec { id, steps });
+                        }
+                        if *n > 64 {
+                            self.facts.lazy_chain_over_64 += 1;
+                        }
+                        cur.map(RStep::Nested)
+                    } else {
+                        None
+                    }
+                }
                 ExecStep::LazyRemove(s, sel) => match (self.slot(*s), self.resolve(*sel)) {
                     (Some(a), Some(h)) => Some(RStep::LazyRemove(a, self.handles[h].e)),
                     _ => None,
@@ -1831,14 +1913,15 @@ impl Interp {
         let mut soft: Vec<Violation> = vec![];
         for group in 0..4 {
             if let Err(v) = self.check_group(group) {
-                if group == 0 {
+                if group == 0 || group == 2 {
                     soft.push(v);
                 } else {
                     found.push(v);
                 }
             }
         }
-        // Ledger / lazy-log oracles (group 0) do not depend on the model staying in step. When they
+        // Ledger / lazy-log oracles (group 0) and the allocator's self-check (group 2, internal state, an
+        // early warning) do not depend on the model staying in step. When they
         // belong to another property than the one being checked the history goes on (the defect may
         // show up later in this property's own terms); they are reported at the end otherwise.
         let focus = crate::engine::focus();
@@ -1884,6 +1967,11 @@ impl Interp {
             let got = ents.is_alive(h.e);
             ensure!("C02", if exp { "live-reported-dead" } else { "dead-reported-alive" }, got == exp,
                 "Entities::is_alive({:?}) = {} but the timeline says {:?}", h.e, got, h.state);
+            if exp {
+                // lookup by index names the current occupant
+                ensure!("C02", "entity-by-index", ents.entity(h.e.id()) == h.e,
+                    "Entities::entity({}) = {:?} but the live entity on that index is {:?}", h.e.id(), ents.entity(h.e.id()), h.e);
+            }
             match h.state {
                 HState::Dead => {
                     ensure!("C02", "dead-reported-alive-merged", !world.is_alive(h.e), "World::is_alive({:?}) is true for a dead entity", h.e);
@@ -2067,6 +2155,7 @@ fn exec_steps(depth: u32) -> BoxedStrategy<Vec<ExecStep>> {
         2 => (0u8..8, sel(), 1u32..1000).prop_map(|(s, h, p)| ExecStep::InsertNow(s, h, p)),
         1 => (0u8..8, sel(), 1u32..1000).prop_map(|(s, h, p)| ExecStep::LazyInsert(s, h, p)),
         1 => (0u8..8, sel()).prop_map(|(s, h)| ExecStep::LazyRemove(s, h)),
+        1 => prop_oneof![1u8..8, 60u8..140].prop_map(ExecStep::Chain),
     ];
     if depth == 0 {
         proptest::collection::vec(leaf, 0..4).boxed()
@@ -2121,6 +2210,7 @@ pub fn op_strategy(p: Profile) -> BoxedStrategy<Op> {
         5 => sel().prop_map(Op::DeleteNow),
         4 => proptest::collection::vec(sel(), 1..5).prop_map(Op::DeleteBatch),
         5 => sel().prop_map(Op::DeleteAtomic),
+        2 => sel().prop_map(Op::DeleteTwice),
         1 => Just(Op::DeleteAll),
     ];
     let live_sel = || prop_oneof![4 => any::<u16>().prop_map(Sel::Live), 1 => any::<u16>().prop_map(Sel::Any)];
@@ -2178,7 +2268,7 @@ fn entry_act() -> impl Strategy<Value = EntryAct> {
 }
 
 pub fn storages_strategy(min: usize, max: usize) -> impl Strategy<Value = Vec<(Kind, u8)>> {
-    (proptest::sample::subsequence(ALL_KINDS.to_vec(), min..=max), proptest::collection::vec((0u8..7, prop::bool::weighted(0.3)).prop_map(|(p, off)| p | if off { 0x80 } else { 0 }), ALL_KINDS.len()), any::<u64>()).prop_map(
+    (proptest::sample::subsequence(ALL_KINDS.to_vec(), min..=max), proptest::collection::vec((0u8..9, prop::bool::weighted(0.3)).prop_map(|(p, off)| p | if off { 0x80 } else { 0 }), ALL_KINDS.len()), any::<u64>()).prop_map(
         |(kinds, paths, rot)| {
             // rotate so that the order of registration varies too
             let n = kinds.len().max(1);
